@@ -30,7 +30,7 @@ TOL_SCALE = Fraction(1, 2**14)  # relative float32 error bound used for every nu
 def translate():
     from translator import registry
 
-    return registry.generate("Constants", "RefineCC", "Kernels")
+    return registry.generate("Constants", "RefineCC", "Kernels", "KernelsRefine")
 
 
 # ------------------------------------------------------------------------------------------------
@@ -519,6 +519,117 @@ def real_method(fn, triple, measure, dtype):
     return {"res": "ok", "shift": val(s), "cost": val(c), "flag": int(f)}
 
 
+def loop_cross_check(ctx, report, status):
+    """T12p: the REAL compiled `loop_refinement` / `loop_approximate_refinement` (with the real compiled method) on small maps,
+    against the exact interpreter of the per-pixel body translator/gen_kernels_refine.py reads from the source (the reading
+    behind Generated/KernelsRefine.lean), the method being the exact evaluation of the translated `refinement_method`:
+    every pixel, coefficient / disparity within the float tolerance, NaN-ness and flag word exactly."""
+    import math
+    import warnings
+
+    import numpy as np
+    from pandora import refinement as refinement_pkg
+    from translator import gen_kernels, gen_kernels_refine, pyexpr
+
+    try:
+        loops = gen_kernels_refine.kernels()
+        methods = gen_kernels.kernels()
+    except Exception:  # Unsupported: already reported by build_and_audit (translate())
+        return
+    report.translator_checks += 1
+    rng = ctx.rng
+
+    def exact_method(name):
+        k = methods[name]
+
+        def run(costs, d, measure):
+            res, vals = pyexpr.evaluate(k, list(costs), 0 if d is None else d, measure)
+            if res != "ok":
+                raise gen_kernels_refine.PyErr("zeroDivision")
+            return vals
+        return run
+
+    def to_np(v):
+        return float("nan") if v is None else float(v)
+
+    def close(real, want, scale):
+        if want is None or (isinstance(real, float) and math.isnan(real)):
+            return want is None and math.isnan(real)
+        return abs(real - float(want)) <= TOL_SCALE * (1 + scale)
+
+    pixels = 0
+    for it in range(ctx.n(90, 900)):
+        approx = it % 3 == 2
+        mname, lean_m = rng.choice([("vfit", "vfitMethod"), ("quadratic", "quadraticMethod")])
+        measure = rng.choice(["min", "max"])
+        sp = rng.choice([1, 1, 2, 4])
+        dmin = rng.choice([-2, -1, 0])
+        dmax = dmin + rng.choice([1, 2, 3])
+        nd = (dmax - dmin) * sp + 1
+        rows, cols = rng.randrange(1, 3), rng.randrange(3, 7)
+        cv = [[[None if rng.random() < 0.08 else Fraction(rng.randrange(0, 9), rng.choice([1, 1, 2]))
+                for _ in range(nd)] for _ in range(cols)] for _ in range(rows)]
+        disp, mask = [], []
+        for r in range(rows):
+            drow, mrow = [], []
+            for c in range(cols):
+                flag = rng.choice([0, 0, 0, 0, 4, 16, 8, 1, 64, 2048])
+                if approx:
+                    d = -Fraction(rng.randrange(dmin, dmax + 1))          # right map: pixel disparities of the opposite sign
+                    if not 0 <= c + d <= cols - 1:
+                        flag |= 1
+                else:
+                    d = dmin + Fraction(rng.randrange(0, nd), sp)
+                    if rng.random() < 0.15 and d < dmax:
+                        d += Fraction(1, 4 * sp)                             # off the grid, inside the interval
+                drow.append(d)
+                mrow.append(flag)
+            disp.append(drow)
+            mask.append(mrow)
+        ref = refinement_pkg.AbstractRefinement(**{"refinement_method": mname})
+        fn = ref.loop_approximate_refinement if approx else ref.loop_refinement
+        k = loops["loopApproxRefinementPx" if approx else "loopRefinementPx"]
+        a_cv = np.array([[[to_np(v) for v in px] for px in row] for row in cv], dtype=np.float32)
+        a_d = np.array([[to_np(v) for v in row] for row in disp], dtype=np.float32)
+        a_m = np.array(mask, dtype=np.uint16)
+        want = []
+        raised = False
+        for r in range(rows):
+            for c in range(cols):
+                kw = {"cv_row": cv[r], "col": c} if approx else {"cv_pix": cv[r][c]}
+                res = k.interpret(exact_method(lean_m), disp[r][c], mask[r][c], dmin, dmax, sp, measure, **kw)
+                want.append((r, c, res))
+                raised = raised or res[0] != "ok"
+        if any(res[0] == "err" and res[1] != "zeroDivision" for _, _, res in want):
+            continue  # an unchecked read outside the arrays: undefined behaviour in numba, never given to the real kernel
+        try:
+            with warnings.catch_warnings():
+                warnings.simplefilter("ignore")
+                itp, nd_, nm_ = fn(a_cv, a_d.copy(), a_m.copy(), dmin, dmax, sp, measure, ref.refinement_method)
+        except Exception as exc:  # pylint: disable=broad-except
+            if not raised:
+                status.problem("translator", f"the real {fn.__name__} raises {type(exc).__name__} where the translated pixel body "
+                               f"returns everywhere; method {mname}/{measure}, subpix {sp}, interval [{dmin}, {dmax}]")
+                return
+            continue
+        if raised:
+            status.problem("translator", f"the translated pixel body of {fn.__name__} raises where the real kernel returns")
+            return
+        scale = 9.0
+        for r, c, res in want:
+            pixels += 1
+            w_itp, w_d, w_m = res[1]
+            got = (float(itp[r, c]), float(nd_[r, c]), int(nm_[r, c]))
+            if not (close(got[0], w_itp, scale) and close(got[1], w_d, scale) and got[2] == w_m):
+                status.problem("translator", f"translated pixel body of {fn.__name__} evaluates differently from the real compiled "
+                               f"kernel at ({r}, {c}): real (coeff, disp, mask) = {got}, translated = "
+                               f"({w_itp}, {w_d}, {w_m}); method {mname}/{measure}, subpix {sp}, interval [{dmin}, {dmax}], "
+                               f"disp {disp[r][c]}, mask {mask[r][c]}, costs {[str(v) for v in (cv[r][c] if not approx else [])]}")
+                return
+    report.count("loop_pixels_vs_real", pixels)
+    report.hit("translator:pixel_body_vs_real")
+
+
 def kernel_cross_check(ctx, report, status):
     """The REAL `Vfit.refinement_method` / `Quadratic.refinement_method` (the compiled njit functions) on a few hundred
     triples against (a) the translator's own exact evaluation of the AST it translated (`pyexpr.evaluate`, Fractions):
@@ -640,6 +751,7 @@ def run(ctx, report, status):
     for case, captured, label in pipeline_cases(ctx, report, ctx.n(6, 60)):
         check_case(ctx, report, case, label, captured=captured)
     kernel_cross_check(ctx, report, status)  # last: the streams above keep their cases for a given seed
+    loop_cross_check(ctx, report, status)
 
 
 def search(ctx, report, status):
